@@ -18,7 +18,7 @@ COMMON_ASSUMPTIONS = [
 
 
 def generic(sub, rule, n_quick, n_thorough, builds=("chk",), needs_ref=True, min_evaluations=1000, assumptions=(), exhaustive=False,
-            extra_args=None, level="exploration", post=None):
+            extra_args=None, level="exploration", post=None, extra_args_by_tier=None):
     def plan(pid, tier, seed, t0):
         rundir, staged = o.prepare(list(builds))
         rc = None
@@ -27,7 +27,8 @@ def generic(sub, rule, n_quick, n_thorough, builds=("chk",), needs_ref=True, min
         n = n_quick if tier == "quick" else n_thorough
         merged = None
         for b in builds:
-            reports = o.run_shards(staged[b], sub, n, seed, tier, os.path.join(rundir, b), extra=(extra_args or []) + ["--build", b])
+            tier_args = (extra_args_by_tier or {}).get(tier, [])
+            reports = o.run_shards(staged[b], sub, n, seed, tier, os.path.join(rundir, b), extra=(extra_args or []) + tier_args + ["--build", b])
             m = o.merge(reports)
             if merged is None:
                 merged = m
@@ -661,7 +662,7 @@ def c13_post(pid, tier, seed, rundir, staged, merged, extra_cov):
             diffs = [(i, j) for i in range(len(table)) for j in range(len(table[i])) if table[i][j] != t2[i][j]][:3]
             merged["violations"].append({"signature": "C13/outcome-differs-between-processes", "witness": {"pool": pool, "pairs(e,d)": diffs}})
             merged["violations_total"] += 1
-        npairs = 6 if tier == "quick" else 60
+        npairs = 6 if tier == "quick" else 12
         for k in range(npairs):
             e = (k * 7 + int(pool)) % len(table)
             d = (k * 11 + 3) % len(table[0])
@@ -692,7 +693,7 @@ PLANS["C13"] = generic(
     "value prints the same before and after every search. Evidence only: whether interpret step counts per pair stayed constant. Non-trivial = a "
     "search on a re-used/cloned handle or directly after a failing search of the same expression; distinct by (pool, expression, document, "
     "predecessor outcome).",
-    n_quick=320, n_thorough=300_000, min_evaluations=300_000, needs_ref=False, post=c13_post,
+    n_quick=320, n_thorough=300_000, min_evaluations=300_000, needs_ref=False, post=c13_post, extra_args_by_tier={"quick": ["--pools", "8"], "thorough": ["--pools", "192"]},
 )
 
 
